@@ -907,6 +907,15 @@ def sort(a, **k):
             r = SArr.from_concrete(_np.sort(v))
             r.dtype_name = a.dtype_name
             return r
+    if isinstance(a, SArr) and a.ndim == 1:
+        # sorting an array that is already (provably) non-decreasing returns the same values
+        ctx = Ctx.cur
+        n = dim_term(a.shape[0])
+        ae = a._elem
+        t, u = bv("t"), bv("u")
+        if ctx.probe(SBool(forall([t, u], z3.Implies(z3.And(t >= 0, t <= u, u < n), ae(t) <= ae(u))))):
+            ctx.trust("numpy:sort of a non-decreasing array is the array")
+            return a.copy()
     raise Unsupported("np.sort on symbolic data")
 
 
@@ -924,11 +933,11 @@ def unique(a, return_index=False, **k):
     n = dim_term(a.shape[0])
     ae = a._elem
     t, u = bv("t"), bv("u")
-    ob = ctx.check(f"{ctx.unit_name}/pre@np.unique:sorted_input", SBool(forall([t, u], z3.Implies(z3.And(t >= 0, t <= u, u < n), ae(t) <= ae(u)))),
-                   kind="precondition of an assumed contract")
-    if ob is not None and ob.status != "discharged":
-        ctx.results.remove(ob)      # not a violation of anything: the contract simply does not cover unsorted input
-        raise Unsupported("np.unique on symbolic data that is not known to be sorted")
+    if not ctx.probe(SBool(forall([t, u], z3.Implies(z3.And(t >= 0, t <= u, u < n), ae(t) <= ae(u))))):
+        # not a violation of anything: the run-based contract simply does not cover unsorted input
+        if return_index:
+            raise Unsupported("np.unique(return_index=True) on symbolic data that is not known to be sorted")
+        return _unique_general(ctx, a)
     I = z3.IntSort()
     m = ctx.fresh_int("n_unique", lo=0, size=True)
     val = ctx.fresh_fn("unique_val", I, a._elem(z3.IntVal(0)).sort())
@@ -952,6 +961,27 @@ def unique(a, return_index=False, **k):
     ix.meta["unique"] = (m, val, start, seg)
     ix.meta["values_in"] = (0, a.shape[0])
     return uq, ix
+
+
+def _unique_general(ctx, a):
+    """ASSUMED (any 1-d array): the distinct values in strictly increasing order - every element is one of them (witness `at`),
+    every one of them is an element (witness `src`)"""
+    n = dim_term(a.shape[0])
+    ae = a._elem
+    I = z3.IntSort()
+    m = ctx.fresh_int("n_unique", lo=0, size=True)
+    val = ctx.fresh_fn("unique_val", I, ae(z3.IntVal(0)).sort())
+    at, src = ctx.fresh_fn("unique_at", I, I), ctx.fresh_fn("unique_src", I, I)
+    t, g, h = bv("t"), bv("g"), bv("h")
+    ctx.assume(z3.And(m.t <= n, (m.t == 0) == (n == 0)), "numpy:unique")
+    ctx.assume(forall([g, h], z3.Implies(z3.And(g >= 0, g < h, h < m.t), val(g) < val(h)), patterns=[z3.MultiPattern(val(g), val(h))]), "numpy:unique")
+    ctx.assume(forall([t], z3.Implies(z3.And(t >= 0, t < n), z3.And(at(t) >= 0, at(t) < m.t, val(at(t)) == ae(t))), patterns=[at(t)]), "numpy:unique")
+    ctx.assume(forall([g], z3.Implies(z3.And(g >= 0, g < m.t), z3.And(src(g) >= 0, src(g) < n, ae(src(g)) == val(g))), patterns=[src(g)]), "numpy:unique")
+    ctx.trust("numpy:unique (distinct values in increasing order; every element occurs, nothing else occurs)")
+    r = SArr((m,), lambda q: val(q), a.kind, dtype_name=a.dtype_name)
+    r.meta["unique_general"] = (m, val, at, src)
+    ctx.ghost["last_unique_general"] = (m, val, at, src)
+    return r
 
 
 def split(a, idx, **k):
